@@ -7,7 +7,7 @@
 (***************************************************************************)
 EXTENDS Device
 
-Cl(l, n, a, inv, svc, mr) == [link |-> l, net |-> n, app |-> a, inv |-> inv, svc |-> svc, maxresp |-> mr, sa |-> FALSE]
+Cl(l, n, a, inv, svc, mr) == [link |-> l, net |-> n, app |-> a, inv |-> inv, svc |-> svc, maxresp |-> mr, sa |-> FALSE, routed |-> FALSE]
 G(c, body, dis) == [c |-> c, src |-> 1, role |-> "g", want |-> <<"g">>, body |-> body, dis |-> dis]
 PassUp == {"ucast", "bcast", "fwd"}
 Reach == {"local", "global"}
